@@ -62,7 +62,7 @@ func (p *Prog) JS() string {
 		case "delall":
 			sb.WriteString("Object.keys(b).forEach(function(k) { delete b[k]; });\n")
 		case "poke":
-			sb.WriteString(fmt.Sprintf("(function(v){ if (Array.isArray(v)) { if (v.length > 0 && v[0] !== null && typeof v[0] === 'object' && !Array.isArray(v[0])) { v[0].poked = 1; } else { v.push(1); } } else if (v !== null && typeof v === 'object') { v.poked = 1; } })(b[%s]);\n", jsText(op.K)))
+			sb.WriteString(fmt.Sprintf("(function(v){ if (Array.isArray(v)) { if (v.length > 0 && v[0] !== null && typeof v[0] === 'object' && !Array.isArray(v[0])) { v[0].poked = 1; } else if (v.length > 0) { v[0] = 1; } } else if (v !== null && typeof v === 'object') { v.poked = 1; } })(b[%s]);\n", jsText(op.K)))
 		}
 	}
 	switch p.Term {
@@ -162,7 +162,9 @@ func (p *Prog) Native(exeOnError bool) core.Action {
 							break
 						}
 					}
-					b[op.K] = append(v, 1.0)
+					if len(v) > 0 {
+						v[0] = 1.0
+					}
 				case map[string]interface{}:
 					v["poked"] = 1.0
 				}
